@@ -8,13 +8,24 @@ from harness import core, tlaval
 
 LEVEL = "model_checking"
 ASSUME = ["functions are drawn from the finite menu of spec/Cartesian.tla (arities 0..3 -> 0..3), defined "
-          "identically in the adapter below; inputs range over {-1, 0, 2, 7} and the opaque value None (code -1000: "
+          "identically in the adapter below; inputs range over {-1, 0, 2, 7} the opaque value None (code -1000) and, for diagrams without arithmetic, the list [1, 2] as one value (code -1001): "
           "copied, swapped, discarded and tested like any value; arithmetic on it must raise TypeError)",
           "bounded: all cartesian diagrams within the model constants (sampled for replay in the quick tier)"]
 CONST = {"quick": {"MaxBoxes": 3, "MaxWidth": 3, "replay": 2500, "tuples": 6, "N": 4},
          "thorough": {"MaxBoxes": 4, "MaxWidth": 3, "replay": 20000, "tuples": 8, "N": 5}}
 INPUTS = (-1, 0, 2, 7)
 NONE = -1000          # code of the opaque value (Python None) in the spec and in recorded tuples
+LISTV = -1001         # code of the list [1, 2] travelling as ONE value on one wire (only fed to diagrams without arithmetic:
+                      # list + list would not raise)
+SAFE = {1, 5, 6, 7, 10, 11, 13, 14, 15}
+
+
+def dec(x):
+    return None if x == NONE else [1, 2] if x == LISTV else x
+
+
+def enc(v):
+    return NONE if v is None else LISTV if isinstance(v, list) and v == [1, 2] else int(v)
 W = [1, 0]
 
 ARITY = {1: (0, 1), 2: (1, 1), 3: (2, 1), 4: (1, 2), 5: (1, 2), 6: (2, 2), 7: (1, 0), 8: (2, 1),
@@ -68,7 +79,7 @@ def build(dabs, B, how):
 def call(d, xs):
     from discopy.cartesian import tuplify
     try:
-        return "", [NONE if v is None else int(v) for v in tuplify(d(*[None if x == NONE else x for x in xs]))]
+        return "", [enc(v) for v in tuplify(d(*[dec(x) for x in xs]))]
     except Exception as e:
         return type(e).__name__, []
 
@@ -83,7 +94,7 @@ def row(kind, xs, exc, res, d=None, l=0, d2=None, res2=None, raw_eq=1):
 
 def raw_equal(lhs, rhs, xs):
     """python == between what the two diagrams return (not normalised to tuples); 1 when either call raises"""
-    args = [None if x == NONE else x for x in xs]
+    args = [dec(x) for x in xs]
     try:
         return int(lhs(*args) == rhs(*args))
     except Exception:
@@ -97,18 +108,19 @@ def observations(states, c, rnd):
     for k, dabs in enumerate(states):
         real = build(dabs, BS, 1) if k % 3 == 2 else build(dabs, B, k % 2)
         n = len(dabs["dom"])
-        tuples = list(itertools.product(INPUTS + (NONE,), repeat=n))
+        safe = all(b["id"] in SAFE for b in dabs["boxes"])
+        tuples = list(itertools.product(INPUTS + ((NONE, LISTV) if safe else (NONE,)), repeat=n))
         for xs in (tuples if len(tuples) <= c["tuples"] else rnd.sample(tuples, c["tuples"])):
             exc, res = call(real, xs)
             rows.append(dict(row("call", xs, exc, res, d=dabs), shared=int(k % 3 == 2)))
     N = c["N"]
     for l in range(N + 1):
         for r in range(N + 1 - l):
-            for xs in rnd.sample(list(itertools.product(INPUTS + (NONE,), repeat=l + r)), min(6, 5 ** (l + r))):
+            for xs in rnd.sample(list(itertools.product(INPUTS + (NONE, LISTV), repeat=l + r)), min(6, 6 ** (l + r))):
                 exc, res = call(cartesian.Swap(l, r), xs)
                 rows.append(row("swap", xs, exc, res, l=l))
     for n in range(N + 1):
-        for xs in rnd.sample(list(itertools.product(INPUTS + (NONE,), repeat=n)), min(8, 5 ** n)):
+        for xs in rnd.sample(list(itertools.product(INPUTS + (NONE, LISTV), repeat=n)), min(8, 6 ** n)):
             exc, res = call(cartesian.Copy(n), xs)
             rows.append(row("copy", xs, exc, res))
             exc, res = call(cartesian.Discard(n), xs)
@@ -135,7 +147,7 @@ def observations(states, c, rnd):
         for lhs in (cartesian.Copy(n) >> cartesian.Id(n) @ cartesian.Discard(n), cartesian.Copy(n) >> cartesian.Discard(n) @ cartesian.Id(n)) + \
                 tuple(cartesian.Swap(a, n - a) >> cartesian.Swap(n - a, a) for a in range(n + 1)):
             rhs = cartesian.Id(n)
-            for xs in rnd.sample(list(itertools.product(INPUTS + (NONE,), repeat=n)), min(4, 5 ** n)):
+            for xs in rnd.sample(list(itertools.product(INPUTS + (NONE, LISTV), repeat=n)), min(5, 6 ** n)):
                 e1, r1 = call(lhs, xs)
                 e2, r2 = call(rhs, xs)
                 rows.append(row("square", xs, e1 or e2, r1, d=proj(lhs), d2=proj(rhs), res2=r2, raw_eq=raw_equal(lhs, rhs, xs)))
